@@ -265,7 +265,7 @@ var propNotes = map[string]string{
 	"C03": "what a procedure body does is abstract (executeOne used through its contract); iteration counts and forall operand order are not under functional contract; bind (executable names replaced by the operator their topmost binding denotes, literal names and other objects untouched, per element) and name lookup (topmost binding on the dictionary stack, for literal and executable names) are; the effect of bind on nested procedures (recursion, cycles) is covered by the per-element frame only.",
 	"C04": "clauses hold while at least four bytes are in memory (composition with refill at buffer boundaries is not proved); that the string under construction never aliases the scanner buffers is an antecedent, not proved; ScanToken dispatch, numbers, names, ASCII85, comments/DSC, String.PS / Name.PS round trips not under contract.",
 	"C05": "covered: cipher step, hex/binary detection, hex armour of readByteEexec, mode discipline, closefile, the eexec operator's operand check and dictionary-stack restoration, readstring's result shape. Not covered: transparency of whole programs is the modular consequence of the byte-layer contracts, not a replayed equality; the bytes readstring stores are tied to the input only in clear-text mode (C12.read.tape); the regurgitate path of BeginEexec is not under functional contract.",
-	"C06": "covered: charstring decryption, number decoding, path/hint/side-bearing/div/setcurrentpoint/closepath/flex-move steps of decodeCharString. Not covered: callsubr/return/callothersubr argument handling, flex end curves, seac assembly, dictionary extraction by type1.Read through the interpreter, defaults of Private values, creation date parsing.",
+	"C06": "covered: charstring decryption, number decoding, path/hint/side-bearing/div/setcurrentpoint/closepath/flex-move steps of decodeCharString. callsubr, seac and the seac assembly in type1.Read (StandardEncoding lookup, base width, accent commands kept). Not covered: return, callothersubr argument handling, flex end curves, translated accent coordinates, dictionary extraction by type1.Read through the interpreter, defaults of Private values, creation date parsing.",
 	"C07": "covered: the seven end* block operators, begin* limits, usecmap, range ordering and destination types, table comparators. Not covered: endcmap producing sorted tables (sort.Slice trusted; only the comparators are verified), ReadCMap's choice among several CMaps beyond determinism (C17), CIDSystemInfo/CMapType/WMode (ordinary def operators, C02).",
 	"C08": "covered: charstring obfuscation, eexec writer over the ghost output tape (each flush emits the eexec encryption of the buffered bytes, key state carried over; four lead bytes, first cipher byte not white space, one non-hex among them), hex writer over the output tape (two lower-case digits per byte, 39 bytes per line), stem hint encoding, number formats (C20), the StandardEncoding shortcut condition. PFB framing of Font.Write (segment headers, little-endian lengths, end marker) over the observed writer's tape. Not covered: template text, the lengths returned by WritePDF, Length1/2/3 in the font dictionary, termination of the lead-byte search, the explicit encoding array text (writeEncoding through fmt), whole-stream composition of successive Write calls.",
 	"C10": "'writing succeeds without error' depends on text/template and Name.PS rejecting non-regular names (a glyph named << is accepted by the reader and refused by the writer: not claimed); re-read equalities go through text/template and the interpreter and are not expressible. Covered: no panic in any writer function for fonts satisfying fontWF, type1.Read establishes fontWF, coordinates within 1/214 (shared with C20).",
